@@ -13,8 +13,10 @@ def _dial_traces(ctx, prop):
     ctx.go_run("quicnet", ["-mode", "dial", "-cases", cpath, "-out", opath], timeout=3000)
     evs = vlib.read_ndjson(opath)
     resets = [e for e in evs if e["e"] == "reset"]
-    if len(resets) != 2 * len(cases):
+    if len(resets) < 2 * len(cases) + 4:
         raise vlib.Infra("quicnet dial: %d traces for %d histories" % (len(resets), len(cases)))
+    hist_of = {(e["i"], e["level"]): e["hist"] for e in resets}
+    ctx.cov["overlapping_request_rounds"] = len([e for e in resets if e["level"] == "pair"])
     ctx.traces += len(resets)
     ctx.evaluations += len([e for e in evs if e["e"] in ("ret", "end")])
     for c in cases:
@@ -42,7 +44,7 @@ def _dial_traces(ctx, prop):
                 if key in seen:
                     continue
                 seen.add(key)
-                hist = cases[int(b[2])]["hist"] if 0 <= int(b[2]) < len(cases) else None
+                hist = hist_of.get((int(b[2]), b[3]))
                 ctx.violation(key, "%s (level %s, owner history %s)" % (b[1], b[3], hist), {"history": hist, "level": b[3],
                               "events": _events_of(evs, int(b[2]), b[3])})
         else:
@@ -120,13 +122,15 @@ def c05(ctx):
                        "quic idle timeout 400 ms, dial backoff constant 20 ms, liveness bound 20 s after X finally owns the address",
                        "only the pconn carrier is run; conn / websocket share Transport.DialPeer"]
     ctx.rule = ("LinkDial.tla model-checked (DialSound, DialLive under weak fairness, 3 owner changes); every owner history over {X, impostor Y, nobody} with "
-                "1..3 (thorough 4) phases replayed against Controller.DialPeerAddr(X, addr) with a retrying link dialer and against Transport.DialPeer (one attempt "
-                "per phase); LinkDialMon.tla judges every return; non-trivial = histories with an impostor phase or an owner change")
-    ctx.tlc("LinkDial", cfg="MC_LinkDial.cfg", timeout=300)
+                "1..3 (thorough 4) phases replayed against Controller.DialPeerAddr(X, alias of addr) with a retrying link dialer and against Transport.DialPeer(X, addr) (one attempt "
+                "per phase); overlapping requests for X and Y at the same address sharing the transport's dialer (both orders, both owners, 3 ms packet delay); "
+                "LinkDialMon.tla judges every return; non-trivial = histories with an impostor phase or an owner change")
+    ctx.tlc("MC_LinkDial", cfg="MC_LinkDial.cfg", timeout=300)
     cases, evs = _dial_traces(ctx, "C05")
     # advisory: design says the retrying dial succeeds whenever X owned the address in a phase it was being tried
     rows = _shake(ctx)
     for x in rows:
         ctx.evaluations += 2
         if not x["impostor_dial_refused"]:
-            ctx.violation("C05:tpt:dialing X reported success with a link to a different peer", "Transport.DialPeer(X, addr) returned a link to the impostor answering at addr", x)
+            ctx.violation("C05:tpt:dialing a peer reported success with a link to a different peer", "Transport.DialPeer(X, addr) returned a link to the impostor answering at addr", x)
+    ctx.sample({"overlapping requests": _events_of(evs, len(cases), "pair")})
